@@ -277,6 +277,94 @@ class C03(NAT):
         return 2
 
 
+class VSchedCheck(SeqCheck):
+    """Trace validation under the controlled scheduler: the harness replaces source files of /repo by copies
+    instrumented at check time (tools/vrewrite) and adds the hook file; the Coq model replays the event log."""
+    test_binary = True
+    oracle_entry = None
+    instrument = {}      # path under /repo -> package name
+    extra_overlay = {}   # path under /repo -> path under harness/overlay
+
+    def build(self):
+        os.makedirs(BIN, exist_ok=True)
+        wd = os.path.join(WORK, self.pid)
+        os.makedirs(wd, exist_ok=True)
+        r = sh(["sh", "-c", "cd %s && GOFLAGS=-mod=mod GOPROXY=off GOSUMDB=off GOTOOLCHAIN=local %s build -o %s ." %
+                (os.path.join(VERIF, "tools", "vrewrite"), GO, os.path.join(BIN, "vrewrite"))])
+        if r.returncode != 0:
+            log(r.stdout[-2000:])
+            return False
+        rep = {}
+        pkgs = set()
+        for path, pkg in self.instrument.items():
+            out = os.path.join(wd, path.replace("/", "_"))
+            r = sh([os.path.join(BIN, "vrewrite"), "-in", os.path.join(REPO, path), "-out", out,
+                    "-labels", out + ".labels"])
+            if r.returncode != 0:
+                log("vrewrite failed on", path, r.stdout[-2000:])
+                return False
+            rep[os.path.join(REPO, path)] = out
+            pkgs.add((os.path.dirname(path), pkg))
+        for d, pkg in pkgs:
+            hooks = os.path.join(wd, "zz_vhooks_%s.go" % pkg)
+            tmpl = open(os.path.join(VERIF, "harness/overlay/vhooks/zz_vhooks.go.tmpl")).read()
+            open(hooks, "w").write(tmpl.replace("PKGNAME", pkg))
+            rep[os.path.join(REPO, d, "zz_vhooks.go")] = hooks
+        for k, v in self.extra_overlay.items():
+            rep[os.path.join(REPO, k)] = os.path.join(VERIF, "harness", "overlay", v)
+        ov = os.path.join(wd, "overlay.json")
+        json.dump({"Replace": rep}, open(ov, "w"))
+        self.label_tables = {p: open(os.path.join(wd, p.replace("/", "_")) + ".labels").read() for p in self.instrument}
+        return go_build(os.path.join(VERIF, "harness", self.harness), os.path.join(BIN, self.hbin), tags="verif",
+                        overlay=ov, test_pkg=".")
+
+    def shrink(self, line, pred):
+        return line   # the replayable input is the schedule stored in the configuration; it is kept as found
+
+
+class C08(VSchedCheck):
+    pid = "C08"
+    diff_is_violation = True
+    harness = "c08"
+    hbin = "h_c08"
+    model_entry = "c08_replay"
+    instrument = {"packetio/buffer.go": "packetio"}
+    extra_overlay = {"packetio/verif_export.go": "packetio/verif_export.go"}
+    quick_n = 3000
+    thorough_n = 150000
+    shards = 12
+    design_ref = "4 (C08), 3.5"
+    technique = "Coq proof (mutual exclusion + wake-up invariant over all interleavings of any number of readers/writers/closers; no parked reader at quiescence) + trace validation of the real code under a controlled scheduler"
+    level_text = ("Coq theorems about an interleaving model with one transition per lock/unlock/channel/select operation of buffer.go: in every "
+                  "reachable quiescent state no reader is parked while a packet is buffered, the buffer is closed or the deadline has passed "
+                  "(C08_no_stuck_reader, unbounded thread counts); buffered data is returned without waiting; EOF after Close when empty; a passed "
+                  "deadline fails fast. Tied to the code by trace validation: buffer.go is instrumented from the working tree at check time "
+                  "(yield points before every synchronisation operation), goroutines are scheduled one operation at a time from the seeded PRNG "
+                  "inside a synctest bubble, and the model must follow every logged event (label, enabledness, select case) and end with the "
+                  "same results, count and 'reader stuck at quiescence' flag as the implementation")
+    level_note = ("partial: 'always woken' is proved in its safety form (quiescence), fairness of the Go scheduler and the semantics of Go's mutex, "
+                  "channels and select are the model's rules (trusted); atomicity between two yield points is sequential Go semantics; the "
+                  "instrumentation pass (tools/vrewrite) and the scheduler (harness/vsched) are trusted; packet contents are abstracted to a count")
+    rule = ("0-4 readers, 0-3 writers, 0-1 closer (one operation each), the read deadline passing at a random point; schedules of 10-90 decisions "
+            "(uniform, or runs of one goroutine with change points) then run to quiescence; non-trivial = at least 2 goroutines and 12 logged events; "
+            "distinct = distinct (goroutine kinds, schedule)")
+    trusted = ["tools/vrewrite (source-to-source instrumentation) and harness/vsched (controlled scheduler) and the generated hook file",
+               "testing/synctest (detection of parked/blocked goroutines)"]
+    assumptions = ["weak fairness of the Go scheduler (for the liveness reading)", "one Read/Write/Close per goroutine"]
+
+    def is_nontrivial(self, conf, ops, obs):
+        kinds = conf.split("77")[0].split()
+        return len(kinds) >= 2 and len(segs(ops)) >= 12
+
+    def diff_is_failing_input(self, line):
+        o = segs(split3(line)[2])
+        return len(o) >= 3 and o[-1].split()[-1:] == ["1"]
+
+    def failing_text(self):
+        return ("at quiescence (no goroutine can move) a reader is parked in Read although a packet is buffered, the buffer is closed "
+                "or the deadline has passed; the configuration holds the goroutine kinds (0 reader, 1 writer, 2 closer), 77, then the schedule")
+
+
 class C09(SeqCheck):
     pid = "C09"
     diff_is_violation = True
@@ -307,6 +395,40 @@ class C09(SeqCheck):
 
     def is_nontrivial(self, conf, ops, obs):
         return any(x.startswith("1 ") for x in segs(obs))
+
+
+class C10(SeqCheck):
+    pid = "C10"
+    diff_is_violation = True
+    harness = "rdl"
+    hbin = "h_rdl"
+    test_binary = True
+    model_entry = "rdl_model"
+    oracle_entry = None
+    overlay = {"vnet/verif_export.go": "vnet/verif_export.go", "udp/verif_export.go": "udp/verif_export.go"}
+    quick_n = 3000
+    thorough_n = 100000
+    shards = 12
+    design_ref = "4 (C10)"
+    technique = "Coq proof (closed form of read/deadline interaction: timeout iff a non-zero deadline has passed, persistence, release at the deadline, reset) + exact virtual-time differential check on five connection types"
+    level_text = ("Coq theorems about the closed-form model (deadline in force, FIFO of items, sequential reader): reads time out only when a non-zero "
+                  "deadline has passed, never early; after expiry every read fails at once and consumes nothing; a blocked read is released exactly at "
+                  "its deadline and not before; a later or zero deadline makes reads return data again. Tied to the code in synctest bubbles on "
+                  "packetio.Buffer, dpipe, udp.Conn (socket-less), vnet.UDPConn (detached) and Bridge endpoints: for timed scripts of "
+                  "SetReadDeadline/SetDeadline/arrival/read the (virtual return instant, class, item) of every read is compared with the model")
+    level_note = ("partial: timer delivery by the Go runtime (here: synctest's fake clock) is trusted; ties between an arrival and an expiry at the same "
+                  "instant are excluded (the property leaves them open); udp.Conn and vnet.UDPConn are exercised without sockets/routers (their read "
+                  "side does not touch them)")
+    rule = ("per connection type (5, round robin): 8-38 script events at strictly increasing instants (gaps 1/3/10/50 ms, 2 s): SetReadDeadline or "
+            "SetDeadline to zero / 1 s ago / +10 ms / +25 ms / +2 s / +1 h, arrival of an item, start of a read; all instants distinct from all "
+            "deadline instants; non-trivial = at least one timeout and one data read; distinct = distinct (type, script)")
+    trusted = ["overlay files harness/overlay/vnet/verif_export.go and harness/overlay/udp/verif_export.go (detached sockets, delivery hooks)",
+               "testing/synctest fake clock"]
+    assumptions = ["one reader at a time", "no ties between arrival and expiry instants"]
+
+    def is_nontrivial(self, conf, ops, obs):
+        o = segs(obs)
+        return any(x.split()[1:2] == ["1"] for x in o) and any(x.split()[1:2] == ["0"] for x in o)
 
 
 class C13(SeqCheck):
@@ -454,6 +576,6 @@ class C16(SeqCheck):
         return any(x.startswith("1") for x in o) and any(x.startswith("0") for x in o)
 
 
-REGISTRY = {"C02": C02, "C03": C03, "C04": C04, "C05": C05, "C06": C06, "C07": C07, "C09": C09, "C13": C13, "C14": C14, "C15": C15, "C16": C16, "C18": C18, "C20": C20}
+REGISTRY = {"C02": C02, "C03": C03, "C04": C04, "C05": C05, "C06": C06, "C07": C07, "C08": C08, "C09": C09, "C10": C10, "C13": C13, "C14": C14, "C15": C15, "C16": C16, "C18": C18, "C20": C20}
 
 NOT_CLAIMED = {}
